@@ -474,7 +474,7 @@ func (m *monitor) judgeHit(jc judgeCtx, h, twin *probe, fills []*probe, history 
 			if !ok {
 				continue
 			}
-			bound := int64(math.Floor(eff(o) - aMin.Seconds() + 0.5 + 0.001))
+			bound := int64(math.Floor(eff(o) - aMin.Seconds() + 0.5 + 1e-6))
 			if bound < 0 {
 				bound = 0
 			}
@@ -502,7 +502,7 @@ func (m *monitor) judgeHit(jc judgeCtx, h, twin *probe, fills []*probe, history 
 		key := c.Cache + ":ttl-exceeds-remaining"
 		what := "a TTL served from cache exceeds round(original TTL - time in cache) for every age compatible with the recorded timestamps"
 		low := storedLowest(twin.UpOrig, c)
-		if !c.ecs() && allSame && first != nil && *first == low && math.Floor(float64(low)-aMin.Seconds()+0.5+0.001) <= 0 {
+		if !c.ecs() && allSame && first != nil && *first == low && math.Floor(float64(low)-aMax.Seconds()+0.5) <= 0 {
 			key = "simple-cache:original-ttl-served-when-remainder-rounds-to-zero"
 			what = "simple cache: in the last half second of an entry's life (remaining time rounds to 0) the full original TTL is served instead of 0"
 		}
